@@ -53,8 +53,8 @@ def init_module(parser, options, position):
         EquEnv(parms, 'flalign*'),
         EquEnv(parms, 'gather'),
         EquEnv(parms, 'gather*'),
-        EquEnv(parms, 'multiline'),
-        EquEnv(parms, 'multiline*'),
+        EquEnv(parms, 'multline'),
+        EquEnv(parms, 'multline*'),
 
     ]
 
